@@ -323,7 +323,7 @@ func check(c *pbt.Ctx, cs Case) {
 		c.Failf("idl-error", "dynamicgo rejects generated IDL: %v", err)
 	}
 	enc := tm.Encode(cs.V)
-	buf := append(make([]byte, 0, len(enc)), enc...)
+	buf := append(make([]byte, 0, len(enc)+16), enc...) // spare capacity, see DESIGN.md (one-past-the-end pointers)
 	cur := sut{typed: cs.Typed}
 	if cs.Typed {
 		cur.v = generic.NewValue(comp.Root, buf)
